@@ -444,7 +444,8 @@ def nextElection (c : Cfg) : M (Option SState) := do
   if ← isStable then
     if ← checkMaster c then
       if ← isMaster c then return some .distribution
-      if (← masterState c) = some .distribution then return some .distribution
+      let ms ← masterState c
+      if ms = some .distribution ∨ ms = some .operation ∨ ms = some .conciliation then return some .distribution
     selectMaster c
   return some .election
 
